@@ -254,7 +254,69 @@ def callback_exceptions_swallowed():
     return 'bool', 'false'
 
 
+def _parents(root):
+    par = {}
+    for n in ast.walk(root):
+        for c in ast.iter_child_nodes(n):
+            par[c] = n
+    return par
+
+
+def target_touched_only_by_final_rename():
+    """every occurrence of self.persistentFile in __save_params is `.parent`, `.name` inside `<name> + '.tmp'`, or the
+    second argument of the one os.rename(tmpfile, self.persistentFile); that rename is the last statement of the try
+    body before the persistentData assignment; the path is bound to no other name and handed to no other call (no
+    remove / unlink / open / replace / exists ... of the stored file)"""
+    f = _save()
+    par = _parents(f)
+    t = _try()
+    tmp = _tmp_names()
+    if len(t.body) < 2 or not isinstance(t.body[-2], ast.Expr) or not _is_call(t.body[-2].value, 'os.rename'):
+        return 'bool', 'false'
+    rename = t.body[-2].value
+    occ = [n for n in ast.walk(f) if is_self_attr(n, 'persistentFile')]
+    if not occ:
+        raise Shape('__save_params: self.persistentFile does not occur')
+    ok = len(rename.args) == 2 and not rename.keywords and isinstance(rename.args[0], ast.Name) \
+        and rename.args[0].id == tmp and is_self_attr(rename.args[1], 'persistentFile')
+    in_rename = 0
+    for n in occ:
+        p = par[n]
+        if isinstance(p, ast.Attribute) and p.value is n and p.attr == 'parent':
+            continue
+        if isinstance(p, ast.Attribute) and p.value is n and p.attr == 'name':
+            pp = par[p]
+            if isinstance(pp, ast.BinOp) and isinstance(pp.op, ast.Add) and pp.left is p and \
+                    isinstance(pp.right, ast.Constant) and pp.right.value == '.tmp':
+                continue
+            ok = False
+            continue
+        if p is rename and rename.args[1] is n:
+            in_rename += 1
+            continue
+        ok = False
+    # nothing else reaches the attribute (getattr / vars / __dict__)
+    for c in walk_type(f, ast.Call):
+        if isinstance(c.func, ast.Name) and c.func.id in ('vars', 'setattr', 'delattr', 'eval', 'exec'):
+            ok = False
+        if isinstance(c.func, ast.Name) and c.func.id == 'getattr' and \
+                not (len(c.args) == 3 and isinstance(c.args[1], ast.Constant) and c.args[1].value == 'persistent'):
+            ok = False
+    return 'bool', cbool(ok and in_rename == 1)
+
+
+def save_call_sites():
+    """every call site of the body of `if data != self.persistentData:` in source order (as dotted text): a new call
+    of any kind on the save path changes this list"""
+    calls = sorted(walk_type(_change_if(), ast.Call), key=lambda c: (c.lineno, c.col_offset))
+    names = [_norm(c.func) for c in calls]
+    if any('"' in n or '\\' in n for n in names):
+        raise Shape('__save_params: call site not representable')
+    return 'list string', '[%s]%%string' % '; '.join('"%s"' % n for n in names)
+
+
 FACTS = [change_detection, pdata_assigned_after_rename, writes_go_to_tmp, only_rename_writes_target,
+         target_touched_only_by_final_rename, save_call_sites,
          rename_after_closed_with_block, remove_tmp_in_finally, unreadable_file_is_empty,
          nonobject_document_is_unreadable, entries_imported_individually, entries_validated_and_exportable,
          cfg_precedes_file, given_set_for_configured_values,
